@@ -22,13 +22,14 @@ func TestMain(m *testing.M) { vkit.Main(m, "C18") }
 
 // Replay is the JSON replay unit: exactly one member is set.
 type Replay struct {
-	Kind string    `json:"kind"`
-	TL   *TLCase   `json:"timeline,omitempty"`
-	IPM  *IPMCase  `json:"ipmanager,omitempty"`
-	Rate *RateCase `json:"rate,omitempty"`
-	Srv  *SrvCase  `json:"server,omitempty"`
-	Race *RaceCase `json:"race,omitempty"`
-	WS   *WSCase   `json:"websocket,omitempty"`
+	Kind  string     `json:"kind"`
+	TL    *TLCase    `json:"timeline,omitempty"`
+	IPM   *IPMCase   `json:"ipmanager,omitempty"`
+	Rate  *RateCase  `json:"rate,omitempty"`
+	Srv   *SrvCase   `json:"server,omitempty"`
+	Race  *RaceCase  `json:"race,omitempty"`
+	WS    *WSCase    `json:"websocket,omitempty"`
+	Crowd *CrowdCase `json:"crowd,omitempty"`
 }
 
 // TestReplay re-executes a saved JSON case (VERIF_REPLAY=path).
@@ -53,6 +54,8 @@ func TestReplay(t *testing.T) {
 			runRate(t, *r.Rate)
 		case r.Srv != nil:
 			runSrv(t, *r.Srv)
+		case r.Crowd != nil:
+			runCrowd(t, *r.Crowd)
 		case r.WS != nil:
 			runWS(t, *r.WS)
 		case r.Race != nil:
